@@ -544,3 +544,358 @@ func keyLeafRule(c *Ctx, rule string) {
 		c.r.check(len(missing) == 0, rule, name, "all fields reach the key", fmt.Sprintf("the cache key of this expression type does not depend on its field(s) %v: two tests that differ only there share a cache entry", missing), c.w.pos(fn.Pos()))
 	}
 }
+
+func init() {
+	addRule("C01", "C01.colcheck — every evaluation of an equality test checks its column against the schema: either (*ExprEqual).eval looks its own column up on every path to a successful return, or the pre-pass that does it is a traversal whose type switch has a case for every expression type (a missing case leaves the tests below that node unchecked).",
+		func(c *Ctx) { colCheckRule(c, "C01.colcheck") })
+}
+
+// colCheckRule: see the description above. The lookup is the comma-ok lookup in the schema's column map keyed by the
+// Column field of an ExprEqual.
+func colCheckRule(c *Ctx, rule string) {
+	if c.a.SchemaT == nil || c.a.Execute == nil {
+		return
+	}
+	colsF := structFieldNamed(c.a.SchemaT, "Columns")
+	var eqT *types.Named
+	for _, t := range c.a.ExprImpls {
+		if !hasExprFields(c, t) {
+			eqT = t
+		}
+	}
+	if colsF == nil || eqT == nil {
+		c.r.undecided(rule, "<anchor>", "schema column map or the leaf expression type not found")
+		return
+	}
+	isColLookup := func(i ssa.Instruction) bool {
+		lk, ok := i.(*ssa.Lookup)
+		if !ok || !lk.CommaOk || path(lk.X).lastField() != colsF {
+			return false
+		}
+		f := path(lk.Index).lastField()
+		return f != nil && c.w.ownerOf(f) == eqT
+	}
+	ev := c.a.methodOf(eqT, "eval")
+	if ev != nil {
+		has := false
+		allInstrs(ev, func(i ssa.Instruction) {
+			if isColLookup(i) {
+				has = true
+			}
+		})
+		if has {
+			if p := c.fc.pathAvoiding(ev, nil, isSuccessReturn, isColLookup); p != nil {
+				c.r.bad(rule, safeFname(ev), "the equality test can be evaluated without its column having been looked up in the schema: a test on a column that occurs in no row yields a count instead of an error", []string{c.w.ipos(p[len(p)-1])}, c.fc.witnessStrings(p)...)
+			} else {
+				c.r.ok(rule, safeFname(ev), "every successful evaluation has looked the column up", c.w.pos(ev.Pos()))
+			}
+			return
+		}
+	}
+	// a pre-pass: functions reachable from Execute that hold the lookup
+	n := 0
+	for _, fn := range c.w.reach(c.a.Execute).sorted() {
+		has := false
+		allInstrs(fn, func(i ssa.Instruction) {
+			if isColLookup(i) {
+				has = true
+			}
+		})
+		if !has {
+			continue
+		}
+		n++
+		handled := map[*types.Named]bool{}
+		allInstrs(fn, func(i ssa.Instruction) {
+			if ta, ok := i.(*ssa.TypeAssert); ok && types.Identical(ta.X.Type(), c.a.ExprIface) {
+				if nt := namedOf(ta.AssertedType); nt != nil {
+					handled[nt] = true
+				}
+			}
+		})
+		var missing []string
+		for _, t := range c.a.ExprImpls {
+			if !handled[t] {
+				missing = append(missing, t.Obj().Name())
+			}
+		}
+		c.r.check(len(missing) == 0, rule, safeFname(fn), "the traversal that checks the columns handles every expression type", fmt.Sprintf("the traversal that checks the columns of the equality tests has no case for %v: tests below such a node are evaluated without the check, and an unknown column there yields a count instead of an error", missing), c.w.pos(fn.Pos()))
+	}
+	if n == 0 {
+		c.r.bad(rule, "Execute", "nothing reachable from Execute looks the column of an equality test up in the schema", []string{c.w.pos(c.a.Execute.Pos())})
+	}
+}
+
+func init() {
+	addRule("C09", "C09.chainop — the loop that collects the operands of an AND / OR node continues on exactly one operator token kind (one constant, or the builder's own operator parameter): a chain that mixes '&' and '|' is not a sentence of the grammar and must not be folded into one node.",
+		func(c *Ctx) { chainOpRule(c, "C09.chainop") })
+}
+
+// chainOpRule (a refutation: loops whose condition it cannot read are skipped). Builders are the parser functions that
+// allocate the And / Or oneof wrappers. In each, a loop whose header tests the kind of the next token — `kind == K`, or
+// a module predicate of the kind — is the operand loop; the set of kinds on which it continues is computed by
+// evaluating the test for every constant of the kind type.
+func chainOpRule(c *Ctx, rule string) {
+	ps := c.a.PS
+	if ps == nil || ps.KindT == nil {
+		return
+	}
+	kindNamed, _ := ps.KindT.(*types.Named)
+	if kindNamed == nil {
+		return
+	}
+	// all constants of the kind type
+	var kinds []int64
+	if pkg := c.w.SSA[pkgParser]; pkg != nil {
+		for _, m := range pkg.Members {
+			if nc, ok := m.(*ssa.NamedConst); ok && types.Identical(nc.Type(), ps.KindT) {
+				if v, ok := constInt(nc.Value); ok {
+					kinds = append(kinds, v)
+				}
+			}
+		}
+	}
+	if len(kinds) < 2 {
+		return
+	}
+	andW, orW := c.w.namedType(pkgProto, "Query_Expression_And_"), c.w.namedType(pkgProto, "Query_Expression_Or_")
+	n := 0
+	for _, fn := range c.w.ModFuncs {
+		if c.w.pkgPathOf(fn) != pkgParser || fn.Blocks == nil {
+			continue
+		}
+		builds := false
+		allInstrs(fn, func(i ssa.Instruction) {
+			if al, ok := i.(*ssa.Alloc); ok {
+				if nt := namedOf(al.Type().Underlying().(*types.Pointer).Elem()); nt != nil && (nt == andW || nt == orW) {
+					builds = true
+				}
+			}
+		})
+		if !builds {
+			continue
+		}
+		for k, l := range loopsOf(fn) {
+			iff, ok := l.header.Instrs[len(l.header.Instrs)-1].(*ssa.If)
+			if !ok {
+				continue
+			}
+			// continue-edge polarity: the successor inside the loop
+			contOnTrue := l.blocks[l.header.Succs[0]]
+			cond := iff.Cond
+			neg := false
+			for {
+				if u, ok := cond.(*ssa.UnOp); ok && u.Op == token.NOT {
+					cond, neg = u.X, !neg
+					continue
+				}
+				break
+			}
+			accepted := -1 // number of constants on which the loop continues; -2 = the builder's own parameter
+			switch x := cond.(type) {
+			case *ssa.BinOp:
+				if x.Op != token.EQL && x.Op != token.NEQ {
+					continue
+				}
+				var other ssa.Value
+				switch {
+				case types.Identical(x.X.Type(), ps.KindT) && types.Identical(x.Y.Type(), ps.KindT):
+					other = x.Y
+					if _, isK := x.X.(*ssa.Const); isK {
+						other = x.X
+					}
+				default:
+					continue
+				}
+				eq := x.Op == token.EQL
+				if neg {
+					eq = !eq
+				}
+				if !contOnTrue {
+					eq = !eq
+				}
+				_, isConst := other.(*ssa.Const)
+				_, isParam := other.(*ssa.Parameter)
+				switch {
+				case eq && isConst:
+					accepted = 1
+				case eq && isParam:
+					accepted = -2
+				case !eq && (isConst || isParam):
+					accepted = len(kinds) - 1 // continues on everything except one kind
+				default:
+					continue
+				}
+			case *ssa.Call:
+				g := calleeFunc(&x.Call)
+				if g == nil || !c.w.inModule(g) || g.Blocks == nil {
+					continue
+				}
+				pi := -1
+				for k2, a := range x.Call.Args {
+					if types.Identical(a.Type(), ps.KindT) && k2 < len(g.Params) {
+						pi = k2
+					}
+				}
+				if pi < 0 {
+					continue
+				}
+				cnt, okAll := 0, true
+				for _, kv := range kinds {
+					r, ok := evalRunePred(g, g.Params[pi], kv)
+					if !ok {
+						okAll = false
+						break
+					}
+					if neg {
+						r = !r
+					}
+					if !contOnTrue {
+						r = !r
+					}
+					if r {
+						cnt++
+					}
+				}
+				if !okAll {
+					continue
+				}
+				accepted = cnt
+			default:
+				continue
+			}
+			n++
+			key := fmt.Sprintf("%s: operand loop#%d", safeFname(fn), k+1)
+			switch {
+			case accepted == 1 || accepted == -2:
+				c.r.ok(rule, key, "the operand loop continues on one operator kind", c.w.ipos(iff))
+			default:
+				c.r.bad(rule, key, fmt.Sprintf("the loop that collects the operands of an AND/OR node continues on %d different token kinds: a chain mixing '&' and '|' (not a sentence of the grammar) is folded into a single node instead of being rejected", accepted), []string{c.w.ipos(iff)})
+			}
+		}
+	}
+	if n == 0 {
+		c.r.ok(rule, "parser", "no operand loop with a readable operator test (refutation rule: nothing to report)")
+	}
+}
+
+func init() {
+	addRule("C12", "C12.fieldorder — a group's values reach the row in the group's own field order: a ResultField value is appended, or stored at the very index it was read from, never at a position derived from its column name (repeated group-by columns share a name).",
+		func(c *Ctx) { fieldOrderRule(c, "C12.fieldorder") })
+	addRule("C17", "C17.pairing — every map of the driver that the open function adds an entry to is cleared of that entry on the path on which the connection's Close closes the index (state that outlives the last handle changes what later opens do).",
+		func(c *Ctx) { driverMapPairingRule(c, "C17.pairing") })
+}
+
+// fieldOrderRule (refutation): in the function that builds the rows, every load of ResultField.Value that is stored
+// through an index expression must use the index its ResultField element was read with.
+func fieldOrderRule(c *Ctx, rule string) {
+	if c.a.NewRows == nil {
+		return
+	}
+	valF := c.w.field(pkgRoot, "ResultField", "Value")
+	if valF == nil {
+		return
+	}
+	n, bad := 0, 0
+	for _, fn := range c.scope(c.a.NewRows, 2) {
+		allInstrs(fn, func(i ssa.Instruction) {
+			ld, ok := i.(*ssa.UnOp)
+			if !ok || ld.Op != token.MUL {
+				return
+			}
+			fa, ok := ld.X.(*ssa.FieldAddr)
+			if !ok || fieldOf(fa.X.Type(), fa.Field) != valF {
+				return
+			}
+			// the element's own index in the Fields slice
+			var srcIdx ssa.Value
+			if ia, ok := fa.X.(*ssa.IndexAddr); ok {
+				srcIdx = ia.Index
+			}
+			for _, u := range referrers(ld) {
+				st, ok := u.(*ssa.Store)
+				if !ok || st.Val != ssa.Value(ld) {
+					continue
+				}
+				dst, ok := st.Addr.(*ssa.IndexAddr)
+				if !ok {
+					continue
+				}
+				if _, isArr := dst.X.Type().Underlying().(*types.Pointer); isArr {
+					continue // the one-element array of a variadic append
+				}
+				n++
+				if srcIdx == nil || dst.Index != srcIdx {
+					bad++
+					c.r.bad(rule, fmt.Sprintf("%s: value placement#%d", safeFname(fn), n), "a group's value is stored at a position that is not the position it has in the group's field list (a position looked up by column name, say): with a repeated group-by column two values land on one position and another stays empty", []string{c.w.ipos(st)})
+				}
+			}
+		})
+	}
+	if bad == 0 {
+		c.r.ok(rule, safeFname(c.a.NewRows), "values keep their position", c.w.pos(c.a.NewRows.Pos()))
+	}
+}
+
+// driverMapPairingRule: map-typed fields of the driver type other than the connection cache itself (C17.evict covers
+// that one) that the open function's scope updates must be deleted from on every path to the Index.Close call in the
+// connection's Close scope.
+func driverMapPairingRule(c *Ctx, rule string) {
+	if c.a.DriverT == nil || c.a.DrvOpenFile == nil || c.a.FileConnClose == nil || c.a.IndexClose == nil {
+		return
+	}
+	st, ok := c.a.DriverT.Underlying().(*types.Struct)
+	if !ok {
+		return
+	}
+	n := 0
+	for i := 0; i < st.NumFields(); i++ {
+		f := st.Field(i)
+		m, isMap := f.Type().Underlying().(*types.Map)
+		if !isMap || typeIs(m.Elem(), pkgDriver, "fileConn") {
+			continue
+		}
+		inserted := false
+		var at ssa.Instruction
+		instrsOf(c.scope(c.a.DrvOpenFile, 2), func(ins ssa.Instruction) {
+			if mu, ok := ins.(*ssa.MapUpdate); ok && path(mu.Map).lastField() == f {
+				inserted, at = true, ins
+			}
+		})
+		if !inserted {
+			continue
+		}
+		n++
+		key := "updogDriver." + f.Name()
+		// the function that closes the index
+		var closer *ssa.Function
+		var closeCall ssa.Instruction
+		for _, g := range c.scope(c.a.FileConnClose, 2) {
+			allInstrs(g, func(ins ssa.Instruction) {
+				if call, ok := ins.(*ssa.Call); ok && calleeFunc(&call.Call) == c.a.IndexClose {
+					closer, closeCall = g, ins
+				}
+			})
+		}
+		if closer == nil {
+			c.r.undecided(rule, key, "the connection's Close does not close the index in a function the rule follows", c.w.ipos(at))
+			continue
+		}
+		isDel := func(ins ssa.Instruction) bool {
+			call, ok := ins.(*ssa.Call)
+			if !ok {
+				return false
+			}
+			b, isB := call.Call.Value.(*ssa.Builtin)
+			return isB && b.Name() == "delete" && len(call.Call.Args) > 0 && path(call.Call.Args[0]).lastField() == f
+		}
+		if p := c.fc.pathAvoiding(closer, nil, func(x ssa.Instruction) bool { return x == closeCall }, c.fc.ipAvoid(isDel)); p != nil {
+			c.r.bad(rule, key, "the open function records something in this map of the driver, but the connection's Close closes the index without removing it: the entry outlives the last handle and changes what later opens of the file do (e.g. they are refused, or answered from stale state)", []string{c.w.ipos(at)}, c.fc.witnessStrings(p)...)
+		} else {
+			c.r.ok(rule, key, "the entry is removed before the index is closed", c.w.ipos(at))
+		}
+	}
+	if n == 0 {
+		c.r.ok(rule, "updogDriver", "the open function updates no driver map other than the connection cache")
+	}
+}
